@@ -675,7 +675,7 @@ def extra_stage(tier, rng, work):
             for r in rs:
                 if r.get("hang"):
                     bad.append((i, "bb-hang", "%s %d: no answer and no close within the deadline" % (kind, k)))
-                if r.get("extra"):
+                if r.get("extra") and r.get("status", 0) // 100 != 1:
                     bad.append((i, "bb-two-answers", "%s %d: %d bytes follow a complete response" % (kind, k, r["extra"])))
             if kind == "early_response":
                 # the backend answered before the request body was complete: the response is relayed, and the
